@@ -154,6 +154,8 @@ def _deadline_loop(cfg, twin, limit, tab, clock, elapsed, t0, model_starts, info
             if not entry:
                 break
         info['fired'] = len(clock.fired)
+        with proofsim.frozen(clock):
+            info['final'] = (info['raised'], len(tab.history), tab.finished, tab.tree is None, tab.valid, tab.invalid)
         late = [w for w in model_starts if w > limit]
         if late:
             raise V('timeout', 'models-after-deadline', 'the model of an open branch was started %sms into the build, past the time limit %sms, without ProofTimeoutError (model starts at %s ms)' % (
@@ -189,18 +191,51 @@ def _deadline_loop(cfg, twin, limit, tab, clock, elapsed, t0, model_starts, info
                         limit, out, len(steps), twin.outcome, n))
     info['reads'] = clock.reads
     info['ms'] = clock.elapsed
+    info['steps'] = len(tab.history)
     return info
+
+def deadline_other_drives(cfg, limit, base, plan, ref):
+    """The same clock plan under stepiter() and build(): the clock is read at the same points, so
+    all drive modes must agree with the step() loop on whether the deadline surfaced, on the
+    steps recorded and on the final state."""
+    for drive in ('stepiter', 'build'):
+        opts = dict(cfg.opts)
+        opts['build_timeout'] = limit
+        fresh(cfg)
+        clock = proofsim.VClock(base, plan)
+        arg = lexgen.build_argument(cfg.prems, cfg.conc)
+        raised = False
+        with proofsim.clock_installed(clock):
+            tab = Tableau(cfg.logic, arg, **opts)
+            try:
+                if drive == 'build':
+                    tab.build()
+                else:
+                    for _ in tab.stepiter():
+                        pass
+            except ProofTimeoutError:
+                raised = True
+            except Exception as e:
+                raise V('timeout', 'raises', '%s() raised %s: %s' % (drive, type(e).__name__, e))
+            with proofsim.frozen(clock):
+                got = (raised, len(tab.history), tab.finished, tab.tree is None, tab.valid, tab.invalid)
+        if got != ref:
+            raise V('timeout', 'drive-mode', 'time limit %sms: step() loop ended (raised, steps, finished, no tree, valid, invalid)=%s but %s() gives %s' % (
+                limit, ref, drive, got))
 
 # -- (c) lifecycle histories (R6)
 
-LIFE_OPS = ('step', 'step', 'step', 'build', 'finish', 'stepiter2', 'set_arg', 'set_logic', 'rules_append',
-            'rules_clear', 'groups_create', 'group_append', 'build_trunk', 'branch', 'next')
+LIFE_OPS = ('step', 'step', 'step', 'build', 'finish', 'stepiter2', 'set_arg', 'set_logic', 'rules_append', 'rules_extend',
+            'rules_clear', 'groups_create', 'groups_append', 'groups_clear', 'group_append', 'group_extend', 'group_clear',
+            'build_trunk', 'branch', 'next')
 
-def lifecycle_case(cfg, ops, with_arg, with_logic):
+def lifecycle_case(cfg, ops, with_arg, with_logic, auto_trunk=True):
     fresh(cfg)
     arg = lexgen.build_argument(cfg.prems, cfg.conc)
     opts = dict(cfg.opts)
     opts.pop('build_timeout', None)
+    if not auto_trunk:
+        opts['auto_build_trunk'] = False
     tab = Tableau(cfg.logic if with_logic else None, arg if with_arg else None, **opts)
     from pytableaux.proof.rules import NoopRule
     # setters after start are tried with values that differ from the current ones
@@ -226,11 +261,18 @@ def lifecycle_case(cfg, ops, with_arg, with_logic):
             elif op == 'set_arg': tab.argument = arg if tab.argument is None else other_arg
             elif op == 'set_logic': tab.logic = cfg.logic if tab.logic is None else other_logic
             elif op == 'rules_append': tab.rules.append(NoopRule)
+            elif op == 'rules_extend': tab.rules.extend([NoopRule])
             elif op == 'rules_clear': tab.rules.clear()
             elif op == 'groups_create': tab.rules.groups.create()
-            elif op == 'group_append':
-                if len(tab.rules.groups): tab.rules.groups[0].append(NoopRule)
-                else: continue
+            elif op == 'groups_append': tab.rules.groups.append([NoopRule])
+            elif op == 'groups_clear': tab.rules.groups.clear()
+            elif op in ('group_append', 'group_extend', 'group_clear'):
+                if not len(tab.rules.groups):
+                    continue
+                g = tab.rules.groups[k % len(tab.rules.groups)]
+                if op == 'group_append': g.append(NoopRule)
+                elif op == 'group_extend': g.extend([NoopRule])
+                else: g.clear()
             elif op == 'build_trunk': tab.build_trunk()
             elif op == 'branch': tab.branch()
             elif op == 'next': tab.next()
@@ -240,7 +282,8 @@ def lifecycle_case(cfg, ops, with_arg, with_logic):
             exc = e
         d1 = state_digest(tab)
         where = 'op %d %s (started=%s finished=%s)' % (k, op, started, finished)
-        mutators = ('set_arg', 'set_logic', 'rules_append', 'rules_clear', 'groups_create', 'group_append', 'build_trunk')
+        mutators = ('set_arg', 'set_logic', 'rules_append', 'rules_extend', 'rules_clear', 'groups_create', 'groups_append',
+                    'groups_clear', 'group_append', 'group_extend', 'group_clear', 'build_trunk')
         if started and op in mutators:
             if not isinstance(exc, IllegalStateError):
                 raise V('lifecycle', 'unlocked:' + op, '%s on a started tableau %s' % (where, 'raised %s' % type(exc).__name__ if exc else 'was accepted'))
@@ -310,7 +353,7 @@ def fault_plan(ctx, cfg, twin):
     faults.append(['deadline', 10 ** 9, 1, {}])               # ticking clock, generous limit
     faults.append(['deadline', frng.choice((3, 10, 30)), 1, {}])   # ticking clock, tight limit
     ops = [frng.choice(LIFE_OPS) for _ in range(frng.randrange(3, 13))]
-    faults.append(['lifecycle', ops, frng.random() < 0.8, frng.random() < 0.85])
+    faults.append(['lifecycle', ops, frng.random() < 0.8, frng.random() < 0.85, frng.random() < 0.8])
     return faults
 
 def apply_fault(cfg, twin, f):
@@ -318,11 +361,13 @@ def apply_fault(cfg, twin, f):
         bit = step_limit_case(cfg, twin, f[1])
         return ('step_limit', bit, f[1])
     if f[0] == 'deadline':
-        info = deadline_case(cfg, twin, f[1], f[2], {int(k): v for k, v in f[3].items()})
+        plan = {int(k): v for k, v in f[3].items()}
+        info = deadline_case(cfg, twin, f[1], f[2], plan)
+        deadline_other_drives(cfg, f[1], f[2], plan, info['final'])
         kind = 'stall' if (not f[3] and f[2] == 0) else 'timeout'
         return (kind, info['raised'], info)
     if f[0] == 'lifecycle':
-        started = lifecycle_case(cfg, f[1], f[2], f[3])
+        started = lifecycle_case(cfg, f[1], f[2], f[3], f[4] if len(f) > 4 else True)
         return ('lifecycle', started, None)
     raise ValueError(f)
 
@@ -399,8 +444,8 @@ def minimise(ctx, v):
     f = faults[0]
     if f[0] == 'lifecycle':
         from ..kernel import ddmin
-        ops = ddmin(f[1], lambda ops: key_of(cfg, [['lifecycle', ops, f[2], f[3]]]) == v.key)
-        faults = [['lifecycle', ops, f[2], f[3]]]
+        ops = ddmin(f[1], lambda ops: key_of(cfg, [['lifecycle', ops] + f[2:]]) == v.key)
+        faults = [['lifecycle', ops] + f[2:]]
     small = proofcheck.minimise_cfg(cfg, lambda c: key_of(c, faults) == v.key, budget=60)
     cx = Ctx(ID, ctx.seed, ctx.tier, ctx.index, ctx.salt)
     judge(cx, small, faults, record=False)
